@@ -309,6 +309,15 @@ impl Buffer {
                     frame.layers[0].set_char((x, y), ch);
                 }
             }
+            // the images are drawn on top of the characters, they belong to the flat picture as well
+            // (copied after the characters: set_char removes an image it writes into)
+            for layer in &self.layers {
+                for sixel in &layer.sixels {
+                    let mut sixel = sixel.clone();
+                    sixel.position += layer.get_offset();
+                    frame.layers[0].sixels.push(sixel);
+                }
+            }
         }
 
         frame.clear_font_table();
